@@ -84,8 +84,19 @@ def run(ck):
         else:
             t = TimeAxis(-(N // 2) * dt, N, dt, atype="complete")
         inp = {"N": N, "dt": dt, "atype": t.atype, "y": [str(z) for z in y[:6]]}
+        # how the values got into the function: at construction, by assignment to .data of a function built real, or
+        # by apply_to_data on a real function - the transform may only depend on axis and values
+        how = rng.choice(["constructor", "constructor", "assigned", "applied"])
+        inp["values_set_by"] = how
         try:
-            f = DFunction(t, y.copy())
+            if how == "constructor":
+                f = DFunction(t, y.copy())
+            elif how == "assigned":
+                f = DFunction(t, numpy.real(y).copy())
+                f.data = y.copy()
+            else:
+                f = DFunction(t, numpy.ones(N))
+                f.apply_to_data(lambda d_: d_ * y)
             F = f.get_Fourier_transform()
             with energy_units("int"):
                 wd = numpy.array(F.axis.data).copy()
@@ -95,7 +106,7 @@ def run(ck):
         except Exception as e:
             ck.fail("raises:ft", "Fourier transform raised %r" % (e,), inp)
             continue
-        ck.case(("ft", N, dt, upper, y.tobytes()), nontrivial=(N >= 3), kind="transform", atype=t.atype, parity="odd" if N % 2 else "even",
+        ck.case(("ft", N, dt, upper, how, y.tobytes()), nontrivial=(N >= 3), kind="transform", atype=t.atype, parity="odd" if N % 2 else "even", values_set_by=how,
                 sample=inp if h < 1 else None)
         sc = max(1.0, float(numpy.abs(Fd).max()))
         td = numpy.array(t.data)
@@ -128,7 +139,7 @@ def run(ck):
                         dict(inp, units=uc), du)
         except Exception as e:
             ck.fail("raises:ft:units-context", "transform inside a units context raised %r" % (e,), inp)
-        if upper and len(Fd) == 2 * N and len(bd) == N:
+        if upper and len(Fd) == 2 * N and len(bd) == N and N <= (20 if ck.quick else 40):
             # upper-half axes: the Hermitian extension + 2N-point transform, and the upper half of the complete inverse
             z2 = complex(math.cos(PI / N), math.sin(PI / N))
             emit("ftu %d %s %s %s" % (N, cfrac(dt), cfrac(z2), " ".join(cfrac(v) for v in y)), " ".join(cfrac(v) for v in Fd), "ft")
